@@ -83,7 +83,7 @@ class C04(core.Check):
         from pcbasic.basic.values import values
         out = []
         x, y = case['x'], case['y']
-        with core.time_limit(20):
+        with core.time_limit(5):
             for op in OPS:
                 fn = getattr(values, op)
                 with M.hard_errors():
